@@ -8,7 +8,7 @@ CONSTANTS
   MaxLen = 16
   PairIds = {6, 8}
   CfgIds = {1, 2, 3, 4, 5, 6, 7, 8, 9, 10, 11, 12, 13, 14, 15, 16, 17, 18}
-  Stride = 12
+  Stride = 8
 INIT Init
 NEXT Next
 INVARIANTS DirectThm RCThm RotThm ResThm SoundThm BoundsThm BudgetThm FlankThm CircThm VerdictThm Export
